@@ -183,6 +183,13 @@ def run_check(pid, tier, seed, workers, quiet=False):
                 d2 = r.get('digest') if isinstance(r, dict) else None
                 if first.get('aborted') and r.get('aborted'):
                     d1 = d2 = 'aborted'
+                elif first.get('aborted') or r.get('aborted'):
+                    # one of the two runs died: where the driver declares a dying worker benign for this task (the pre-built
+                    # engine sometimes takes the process down instead of raising) there is nothing to compare
+                    on_abort = getattr(driver, 'on_abort', None)
+                    if on_abort is not None and on_abort(tasks[i], first if first.get('aborted') else r) == {}:
+                        agg.counts['determinism_rerun_skipped_benign_abort'] += 1
+                        continue
                 ndet += 1
                 if d1 != d2:
                     agg.harness_errors.append((f'nondeterminism: task {i} digest {d1} vs {d2} in a fresh process', tasks[i]))
